@@ -664,6 +664,60 @@ def rule_r7(ctx) -> List[R.Inst]:
     return insts
 
 
+def rule_r8(ctx) -> List[R.Inst]:
+    """combined filters stay filters: the base class's `filter` is a stub (the subclasses decide what a row is tested against, with
+    `keys` and `invert_filter` as their parameters), so an operator of the base class (`a | b`, `a & b`) that builds its result with
+    the BASE class's constructor, or without the operands' parameters, hands back an object whose `filter` returns None — passed
+    as `combo_filter` it makes `combos[None]` (adds an axis) instead of filtering: combinations are neither filtered nor shaped"""
+    M = ctx.M
+    rid = "C20.R8"
+    base = FILTERS + ".PtnFilter"
+    insts = []
+    if base not in M.classes:
+        return [R.undec(rid, "operators", "", 0, "PtnFilter class not found")]
+    bnode = M.classes[base].node
+    file = M.mods[M.classes[base].mod].rel
+    flt = next((b for b in bnode.body if isinstance(b, ast.FunctionDef) and b.name == "filter"), None)
+    from ..model import body_without_docstring
+    stub = flt is None or all(isinstance(x, ast.Pass) or (isinstance(x, ast.Expr) and isinstance(x.value, ast.Constant) and x.value.value is Ellipsis) or
+                              (isinstance(x, ast.Raise)) for x in body_without_docstring(flt))
+    fields = [f[0] for f in M.dataclass_fields(base)]
+    params = [f for f in fields if f != "ar"]
+    ops = [b for b in bnode.body if isinstance(b, ast.FunctionDef) and b.name in ("__and__", "__or__", "__xor__", "__sub__", "__add__", "__invert__")]
+    if not ops:
+        return [R.ok(rid, "operators", file, bnode.lineno, idiom="the filter classes define no combining operators")]
+    for op in ops:
+        key = f"PtnFilter.{op.name}"
+        rets = [n for n in walk_no_nested(op) if isinstance(n, ast.Return) and n.value is not None]
+        bad = []
+        for r_ in rets:
+            v = r_.value
+            if not isinstance(v, ast.Call):
+                bad.append(f"returns '{unparse(v)[:50]}', not a filter")
+                continue
+            ctor = unparse(v.func)
+            dyn = ctor in ("type(self)", "self.__class__", "self.__class__.__call__") or (ctor in ("replace", "dataclasses.replace") and v.args and unparse(v.args[0]) == "self")
+            if not dyn and stub:
+                bad.append(f"builds its result with '{ctor}(…)': the base class's filter() is a stub, the operands' own test is lost")
+                continue
+            if ctor in ("replace", "dataclasses.replace"):
+                continue
+            given = {k.arg for k in v.keywords} | set(fields[:len(v.args)])
+            missing = [p_ for p_ in params if p_ not in given]
+            wrong = [k.arg for k in v.keywords if k.arg in params and unparse(k.value) != f"self.{k.arg}"]
+            if missing:
+                bad.append(f"the result does not receive {missing} of its operands (the defaults are not theirs)")
+            elif wrong:
+                bad.append(f"{wrong} of the result are not the left operand's")
+        if not rets:
+            insts.append(R.undec(rid, key, file, op.lineno, "no return found"))
+        elif bad:
+            insts.append(R.viol(rid, key, file, rets[0].lineno, "; ".join(bad), construct=f"{key}: " + "; ".join(bad)))
+        else:
+            insts.append(R.ok(rid, key, file, rets[0].lineno, idiom="the result is built by the operands' own class with their keys / invert setting"))
+    return insts
+
+
 def rule_dep(ctx):
     """obligations inherited from shared code reached through the call graph (sa/props/deps.py)"""
     from .deps import dep_insts
@@ -678,6 +732,7 @@ SPECS = [
     RuleSpec("C20.R4", rule_r4, 7, "A7", "chord filter tests row membership; exclude = negation; option flags distinct bits"),
     RuleSpec("C20.R6", rule_r6, 2, "M0", "the type filter is issubclass, so the tags assigned by the pattern (note classes, HoldTail) are unrelated classes"),
     RuleSpec("C20.R7", rule_r7, 1, "A7", "template option flags: no conditional expression swallowing an unconditional flag"),
+    RuleSpec("C20.R8", rule_r8, 1, "A7", "combined filters (a | b, a & b) are filters of the operands' class with the operands' parameters"),
     RuleSpec("C20.D", rule_dep, 1, "M0", "rules of the shared code (timing engine, list classes, stacker) that the operations of this property reach"),
 ]
 
